@@ -386,10 +386,18 @@ impl Worterbuch {
             self.store
                 .insert_cas(&path, value.clone(), version, force)?;
 
+        // persist the entry as it is stored now: the version this write produced, not the one the
+        // client sent along
+        let stored_version = self
+            .store
+            .cget(&path)
+            .map(|(_, stored)| stored)
+            .unwrap_or(version);
+
         self.persistent_storage
             .update_value(
                 &key,
-                &ValueEntry::Cas(value.clone(), version),
+                &ValueEntry::Cas(value.clone(), stored_version),
                 Some(client_id),
             )
             .await
